@@ -53,7 +53,7 @@ PROPS = {
         "what": "token ranges of the model tokenizer: ordered, non-overlapping, start <= end, first at/after the skipped prefix; tokens start on a non-blank; error positions lie at/after the end of the last token",
         "theorems": ["chain_mono", "tokLoop_chain", "ranges_chain", "skipWs_suffix", "skipWs_nonblank", "errPosOk_mono", "tokLoop_error_pos", "error_after_skip"],
         "open": ["in_bounds (end <= line length) and strictness (start < end): need 'every matcher consumes a non-empty prefix'", "nonblank_ends", "self_tokenise (the text of a range re-tokenizes to its token)", "tokenize_total (fuel never runs out)"],
-        "slices": ["c13"],
+        "slices": ["c13", "c05"],
         "level_text": "Machine-checked theorems (Lean 4) for every line and skip: reported ranges form a chain skip <= s1 <= e1 <= s2 <= e2 ..., tokens start on non-blank characters, an error position is never before the end of the last token; character-boundary alignment is structural in the model (positions are UTF-8 lengths of whole-character prefixes). Upper bounds, strictness and re-tokenization of a range are not yet proved: the check rests for them on the correspondence slice ((token, range) pairs equal between implementation and model; exhaustive over all strings up to length 3/5 of a 17-symbol alphabet) and on the implementation oracle (bounds, boundaries, order, blank ends, re-tokenization of every slice).",
         "level_note": "PARTIAL proof (see not_yet_proved in evidence). Trusted: Lean kernel, extractor, hand-written tokenizer model validated by sampling and bounded exhaustive enumeration.",
     },
@@ -64,6 +64,31 @@ PROPS = {
         "slices": ["c01"],
         "level_text": "Machine-checked theorems (Lean 4), for every state/line/reply/seed: an error of start/continue is a value after which the state is Idle and carries a location; provide_input, break and randomize cannot fail; nested evaluation restores the nesting counter on both the Ok and the Err path and refuses at the extracted cap 48, which bounds native recursion depth by a constant. The global no-panic invariant over arbitrary call sequences is NOT yet proved; there the check rests on the correspondence slice (state-aware random protocol walks with boundary lines, 30..1000-deep nesting, full state snapshots and caret rendering compared between implementation and model, where every Rust panic site is an explicit value) and on the implementation oracle (no panic / abort, Idle after error).",
         "level_note": "PARTIAL proof. Trusted: Lean kernel; hand-written model validated by sampling; bytes of native stack per nesting level are measured, not proved (cap 48 x ~15 KB debug); allocation failure outside the model.",
+    },
+    "C05": {
+        "what": "the analyzer's line pass yields one token list and one range record per file line; the BASIC->file map only ever points at range records that exist and have token ranges (the D11 invariant); a mapped location lands on an existing file line",
+        "theorems": ["analyzeLine_counts", "one_token_list_per_line", "mapOk_empty", "analyzeLine_mapOk", "analyzeLines_mapOk", "mapLoc_line_exists"],
+        "open": ["analyze_total: no panic and no exhausted budget for any file", "diag_maps: every message maps, to the file line it names, within bounds and on character boundaries", "ranges_ordered per line (from C13)"],
+        "slices": ["c05"],
+        "level_text": "Machine-checked theorems (Lean 4) for every file content about the analyzer's line pass (one token list per line, inductive invariant of the BASIC->file map that excludes the D11 panics, mapped locations exist). Totality of the whole analysis and the full diagnostic well-formedness are not yet proved; the check rests for them on the correspondence slice (documents of every shape incl. 47..300-deep nesting and the shapes of all earlier defects; implementation vs model where each Rust panic site is a value) and the well-formedness oracle on the implementation's output.",
+        "level_note": "PARTIAL proof.",
+    },
+    "C06": {
+        "what": "operator-level agreement of analyzer and evaluator for all operand values: TYPE MISMATCH iff the tier's type rule rejects, produced values have the analysed type, only other failure is DIVISION BY ZERO; unary operators likewise; same suffix rule for assignment / binding; same operator tables and tier order",
+        "theorems": ["binop_agrees", "unop_agrees", "suffix_rule_agrees", "same_tiers", "tables_match_tiers"],
+        "open": ["agree_expr (whole expressions: same tokens consumed, analysed type = kind of the value, same first syntax/type error)", "sound (no analysis error => no Syntax/TypeMismatch/UndefinedStatement at run time, under FunctionsConsistent)", "complete_straight"],
+        "slices": ["c06"],
+        "level_text": "Machine-checked theorems (Lean 4): for every binary and unary operator and all operand values the evaluator's TYPE MISMATCH coincides with the analyzer's type rule and results have the analysed type; both walkers use the same operator tables in the same tier order. Statement- and program-level soundness/completeness are not yet proved; the check rests for them on the correspondence slice and the oracle (straight-line lines: analysis error => execution from a fresh state fails; generated programs: no analysis error => no syntax/type/undefined-line failure under three seeds / input scripts).",
+        "level_note": "PARTIAL proof.",
+    },
+    "C20": {
+        "what": "byte->UTF-16 column conversion stays inside the line and is monotone for every line and offset; protocol line splitting gives terminator-free lines and at least one line; token types are in the legend; encoded tokens fit their line",
+        "theorems": ["col_in_bounds", "col_monotone", "range_in_line", "col_of_prefix", "split_no_terminators", "split_nonempty", "type_in_legend", "encoded_token_ok"],
+        "open": ["lsp_total (no panic for any document)", "delta_decodes_ordered (decoded tokens strictly ordered, non-overlapping)", "diags_are_messages"],
+        "slices": ["c20"],
+        "needs_bins": True,
+        "level_text": "Machine-checked theorems (Lean 4) about the server's position logic for EVERY line text and byte offset (columns in bounds, monotone, exact on boundaries), protocol line splitting, legend membership. Survival on every document, delta decoding and the diagnostics=messages clause are not yet proved; the check rests for them on the correspondence slice (the real abasic-lsp binary driven over stdio with sequences of open/change notifications + semanticTokens requests, responses vs the model) and the JSON oracle (positions inside the document in UTF-16 units, tokens ordered/non-overlapping, types < 8, diagnostics = analyzer messages for the latest text, server alive).",
+        "level_note": "PARTIAL proof. JSON-RPC framing, threads and process liveness are exercised, not modelled.",
     },
     "C07": {
         "what": "break records the interrupted location as breakpoint and keeps the stack; CONT restores the cursor; break followed by CONT's restore is the identity on everything the program observes",
